@@ -360,3 +360,60 @@ func manyNamesFrameCase(prop string) {
 		}
 	}
 }
+
+// unchangedRunCase (C06): a very long run of records that do not differ from their predecessor (a
+// few bits each), default options, ONE Flush at the end. The writer must have cut frames on its own
+// (the reader refuses a frame above pkg.FrameSizeLimit, 64 MiB): after the Flush every record
+// written must be readable. 92 million records are about 69 MB of frame content.
+func unchangedRunCase(prop string) {
+	n := 92_000_000
+	name := "unchanged-run-92M"
+	note("case %s", name)
+	cw := &chunkLog{}
+	w, err := otelstef.NewMetricsWriter(cw, pkg.WriterOptions{})
+	if err != nil {
+		propFail("%s unchanged-run-writer case=%s %v", prop, name, err)
+		return
+	}
+	w.Record.Metric().SetName("m")
+	w.Record.Point().SetTimestamp(1)
+	for i := 0; i < n; i++ {
+		if err := w.Write(); err != nil {
+			propFail("%s unchanged-run-write case=%s record %d: %v", prop, name, i, err)
+			return
+		}
+	}
+	if err := w.Flush(); err != nil {
+		propFail("%s unchanged-run-flush case=%s %v", prop, name, err)
+		return
+	}
+	note("nontrivial %x", uint64(n))
+	stats["unchanged-run-records"] += n
+	maxFrame, prev := 0, 0
+	for _, e := range cw.ends {
+		if e-prev > maxFrame {
+			maxFrame = e - prev
+		}
+		prev = e
+	}
+	stats["unchanged-run-largest-chunk"] = maxFrame
+	rd, err := otelstef.NewMetricsReader(bytes.NewReader(cw.buf.Bytes()))
+	if err != nil {
+		propFail("%s unchanged-run-not-readable case=%s %v", prop, name, err)
+		return
+	}
+	check := n
+	if !thorough {
+		check = 3_000_000 // the rest of the frames is read in the thorough tier
+	}
+	for i := 0; i < check; i++ {
+		if err := rd.Read(pkg.ReadOptions{}); err != nil {
+			propFail("%s unchanged-run-not-readable case=%s %d Metrics records equal to their predecessor, default writer options, one Flush at the end (the stream has %d bytes, the largest chunk the writer emitted %d): Read of record %d returned: %v", prop, name, n, cw.buf.Len(), maxFrame, i, err)
+			return
+		}
+		if rd.Record.Metric().Name() != "m" || rd.Record.Point().Timestamp() != 1 {
+			propFail("%s unchanged-run-value-changed case=%s record %d", prop, name, i)
+			return
+		}
+	}
+}
